@@ -147,6 +147,7 @@ IDIOMS = [
     # R2 reference patterns
     ('R2.split_last_ref', r'let \(&([a-z_0-9]+), ([a-z_0-9]+)\) = ([^;]*?)\.split_last\(\)\.unwrap\(\);',
      r'let (\1__r, \2) = \3.split_last().unwrap(); let \1 = *\1__r;'),
+    ('R2.closure_tuple_param', r'\|\((\w+), (\w+)\)\| (\w+\.checked_sub\(\w+\))', r'|p__| { let (\1, \2) = p__; \3 }'),
     # R3 debug_assert_eq / _ne  (message dropped)
     ('R3.debug_assert_eq_carry', r'debug_assert_eq!\(carry, &0\);', r'debug_assert!(*carry == 0);'),
     ('R3.debug_assert_eq', r'debug_assert_eq!\(([^,;]+), ([^,;]+)\);', r'debug_assert!(\1 == \2);'),
